@@ -286,9 +286,42 @@ def r09_3(ctx):
     return r
 
 
+def hir_mir_registry_writers(ctx):
+    """thorough: functions that add to a registry, derived from MIR effects and again from the typed HIR"""
+    r = Rule("R09.X", "cross-check: registry-growing functions derived from MIR equal those derived from the typed HIR", "a writer one view misses would escape R09.2")
+    from .c06 import _adders
+    nodes, edges = C.call_graph(ctx)
+    mir = set()
+    ADD = re.compile(r"(Vec::<T, A>::(push|insert|extend|append)|BTreeMap::<K, V, A>::(entry|insert)|Option::<T>::(get_or_insert_with|get_or_insert|insert|replace))$")
+    from .state import first_field, root_path
+    for k, b in nodes.items():
+        if k[0] != VISITOR_CRATE or k[1].endswith("::new"):
+            continue
+        for e in mut_events(b, flow_of(ctx, b)):
+            if e["kind"] == "call" and ADD.search(e["callee"]):
+                for f in self_field_of(e["sources"]):
+                    if first_field(f) in REGISTRIES:
+                        mir.add((root_path(b), first_field(f)))
+    hir = set()
+    for b in ctx.facts.hir:
+        if b["crate"] != VISITOR_CRATE or b.get("mac") or b["name"] == "new":
+            continue
+        for n in walk(b["body"]):
+            if n.get("k") == "MethodCall" and n["method"] in ("push", "insert", "extend", "append", "entry", "get_or_insert_with", "get_or_insert", "replace"):
+                fp = field_path(strip_transparent(n["recv"])) or ""
+                m = re.match(r"self\.(\w+)$", fp)
+                if m and m.group(1) in REGISTRIES:
+                    hir.add((b["path"], m.group(1)))
+    for x in sorted(hir | mir):
+        r.ob("%s adds to %s" % x, x in hir and x in mir, "-", "seen in both views" if (x in hir and x in mir) else ("only in the %s view" % ("HIR" if x in hir else "MIR")))
+    return r
+
+
 def rules(ctx):
     from . import c06
     out = [r09_1, r09_2, r09_3, c07.r07_3, c06.r06_1]
+    if ctx.tier == "thorough":
+        out.append(hir_mir_registry_writers)
     try:
         from . import c20
         out += [c20.r20_1, c20.r20_2]
